@@ -179,3 +179,115 @@ def fd_program(params):
         return {"trace": post(s)}
 
     return wrapped
+
+
+def real_lifecycle_program(params):
+    """C06 with the REAL emitters: params = {"observer": "inotify"|"polling", "threads": {"app1": [op...], "app2": [...]},
+    "dirs": n}.  op: ["schedule", sub] ["unschedule", sub] ["unschedule_all"] ["start"] ["stop"] ["join"] ["rmroot"]
+    ["touch", name] ["cb_stop"] (schedule a handler that calls stop() from its first callback)."""
+    w = _world()
+    th = w.shims["threading"]
+    kind = params.get("observer", "inotify")
+    threads = params["threads"]
+
+    def program(s):
+        base, root = _mktree(params.get("dirs", 2))
+        sm = seam_mod.Seam(w, log=False).install()
+        sm.root = os.fsencode(root)
+        try:
+            return body(s, root)
+        finally:
+            sm.cleanup()
+            sm.remove()
+            shutil.rmtree(base, ignore_errors=True)
+
+    def body(s, root):
+        events = w.mod("events")
+        if kind == "polling":
+            obs = w.mod("observers.polling").PollingObserver(timeout=1.0)
+        else:
+            obs = w.mod("observers.inotify").InotifyObserver()
+        watches = {}
+
+        class H(events.FileSystemEventHandler):
+            def __init__(self, action=None):
+                self.action = action
+                self.n = 0
+
+            def on_any_event(self, event):
+                self.n += 1
+                if self.n == 1 and self.action:
+                    do(self.action)
+
+        def call(name, fn):
+            s.log("call", op=name)
+            try:
+                fn()
+                s.log("ret", op=name, ok=True)
+            except detsched.SchedAbort:
+                raise
+            except Exception as e:  # noqa: BLE001
+                s.log("ret", op=name, ok=False, exc=type(e).__name__)
+
+        def do(op):
+            k = op[0]
+            if k == "schedule":
+                p = root if op[1] == "." else os.path.join(root, op[1])
+                call("schedule", lambda: watches.__setitem__(op[1], obs.schedule(H(), p, recursive=True)))
+            elif k == "cb_stop":
+                call("schedule", lambda: watches.__setitem__(".", obs.schedule(H(["stop"]), root, recursive=True)))
+            elif k == "unschedule":
+                if op[1] in watches:
+                    call("unschedule", lambda: obs.unschedule(watches.pop(op[1])))
+            elif k == "unschedule_all":
+                call("unschedule_all", obs.unschedule_all)
+            elif k == "start":
+                call("start", obs.start)
+            elif k == "stop":
+                call("stop", obs.stop)
+            elif k == "join":
+                call("join", obs.join)
+            elif k == "rmroot":
+                s.yield_("fsop")
+                shutil.rmtree(root, ignore_errors=True)
+                s.log("op", op="rmroot")
+            elif k == "touch":
+                s.yield_("fsop")
+                try:
+                    open(os.path.join(root, op[1]), "w").close()
+                except OSError:
+                    pass
+                s.log("op", op="touch")
+            elif k == "poll":
+                s.wait_quiescent()
+                s.fire_manual_timers()
+                s.wait_quiescent()
+
+        def app(ops):
+            for op in ops:
+                do(op)
+
+        ts = [th.Thread(target=app, args=(ops,), name="h" + n) for n, ops in sorted(threads.items())]
+        for t in ts:
+            t.start()
+        for t in ts:
+            t.join()
+        live = sorted(x.name for x in s.tasks if x.kind == "lib" and x.state != "done" and not x.name.startswith("h"))
+        s.log("final", open=[], live=live)
+        return {}
+
+    keep = ("call", "ret", "op", "final", "uncaught")
+
+    def post(s):
+        return [{k: v for k, v in e.items() if k not in ("i", "now")} for e in s.trace if e["e"] in keep]
+
+    def wrapped(s):
+        try:
+            program(s)
+        except detsched.Deadlock as d:
+            return {"trace": post(s) + [{"t": "sched", "e": "deadlock", "info": str(d.info)[:300]}]}
+        return {"trace": post(s)}
+
+    if kind == "polling":
+        wrapped.sched_kw = {"manual_timer": lambda task, label: label == "evwait"}
+    return wrapped
